@@ -47,7 +47,7 @@ KANI_UNITS["C08"] = dict(
 KANI_UNITS["C11"] = dict(
     prop="C11", crate="varpulis-runtime",
     appends=[("crates/varpulis-runtime/src/engine/evaluator.rs", "__vpv_c11", "contracts/kani/c11.rs")],
-    grade="K-complete", level="proof", timeout=4800, harness_timeout=int(os.environ.get("VPV_HT", "600")),
+    grade="K-complete", level="proof", timeout=4800, harness_timeout=600,
     cell_grades={"c11_bin_add_ss": "K-bounded(2-byte string literals)"},
     functions=["varpulis-runtime/src/engine/evaluator.rs: eval_expr_with_functions (Binary arm: all 24 BinOp variants; Unary arm: all 3; literal arms)",
                "varpulis-runtime/src/engine/evaluator.rs: eval_builtin_function (abs sqrt floor ceil round pow log log10 exp sin cos min max is_null is_int type_of)"],
